@@ -30,7 +30,7 @@ PROPERTY_RULES: Dict[str, List[str]] = {
     "C06": ["CTRL-1", "CTRL-2", "CTRL-3", "CTRL-4", "CTRL-8", "CTRL-9", "CTRL-10", "CTRL-11", "STORE-5"],
     "C07": ["DISP-5", "DISP-6", "CTRL-7", "LOWER-6", "LOWER-7", "LOWER-8", "LOWER-9", "LOWER-10", "STORE-10", "TOTAL-6"],
     "C08": ["LOWER-1", "LOWER-2", "LOWER-3", "LOWER-4", "LOWER-6", "STORE-10"],
-    "C09": ["TABLE-1", "TABLE-2", "TABLE-3", "TABLE-4", "TABLE-5", "ORD-5"],
+    "C09": ["TABLE-1", "TABLE-2", "TABLE-3", "TABLE-4", "TABLE-5", "TABLE-6", "ORD-5"],
     "C10": ["NAME-5", "DISP-6", "LOWER-5", "LOWER-7", "LOWER-8", "LOWER-9", "LOWER-10", "STORE-13"],
     "C11": ["DISP-1", "DISP-2", "DISP-3", "DISP-4"],
     "C12": ["ORD-1", "ORD-2", "ORD-3", "ORD-5"],
